@@ -204,7 +204,7 @@ Print Assumptions C04_inert_needed.
 
 (* ---- processAcquirePriv is the source's: translated statement by statement on this run
    (gen/decide.go -> GeneratedSkel.process_acquire_priv_code, interpreted by DecideLang.exec) ---- *)
-From Scrapli Require Import DecideLang GeneratedSkel Decide.
+From Scrapli Require Import DecideLang GeneratedSkel DecidePA.
 
 (* for every privilege map, cached level, target and prompt: the translated function takes for the
    current level the cached one if the prompt allows it, else the target if the prompt allows it,
@@ -222,7 +222,7 @@ Print Assumptions C04_process_acquire_is_source.
    matches), in whatever order the map is iterated, it reports exactly the levels that are not
    excluded and whose pattern matches, in iteration order, and returns the error exactly when there
    is none; [C04_determine_current_selected]: the model's determine_current is that selection. *)
-From Scrapli Require Import DecideLoops NetworkSrc.
+From Scrapli Require Import DecideLemmas NetworkSrc.
 Theorem C04_determine_current_priv_is_source : forall fl,
   dcp_run fl = Some (selected fl 0, match selected fl 0 with [] => false | _ => true end).
 Proof. exact determine_current_priv_is_source. Qed.
@@ -260,3 +260,13 @@ Proof. intros. split; reflexivity. Qed.
 
 Print Assumptions C04_net_send_is_source.
 Print Assumptions C04_run_aop_cases.
+
+(* every test that the translated functions of this property make is one the environments of their
+   ties were written for: a test that is new in the source breaks this (an unknown equality would
+   otherwise evaluate to false without notice) *)
+From Scrapli Require Import DecideLang GeneratedSkel DecidePA NetworkSrc.
+Theorem C04_source_tests_known :
+  tests_known process_acquire_priv_code process_acquire_priv_known = true /\
+  tests_known (net_send_command_code ++ net_send_commands_code ++ net_send_configs_code)%list net_send_known = true.
+Proof. split; [exact process_acquire_priv_tests_known | exact net_send_tests_known]. Qed.
+Print Assumptions C04_source_tests_known.
